@@ -41,12 +41,15 @@ const (
 	eDecorateFile         // go/parser first, then decorator.DecorateFile on whatever it returned
 	eParseDir             // decorator.ParseDir on a scratch directory holding the faulted bytes
 	eDecorateNodes        // go/parser first, then decorator.Decorate on every top-level declaration separately
+	eManagedParseDir      // a Decorator with import management (goast) parsing a scratch directory
 	numEntries
 )
 
-var entryNames = [...]string{"Parse", "ParseFile", "managed(goast.New)", "managed(goast/guess)", "reused-Decorator", "DecorateFile", "ParseDir", "Decorate(each decl)"}
+var entryNames = [...]string{"Parse", "ParseFile", "managed(goast.New)", "managed(goast/guess)", "reused-Decorator", "DecorateFile", "ParseDir", "Decorate(each decl)", "managed ParseDir(goast)"}
 
-func managed(e int) bool { return e == eManagedGoast || e == eManagedGuess }
+func managed(e int) bool { return e == eManagedGoast || e == eManagedGuess || e == eManagedParseDir }
+
+func isDir(e int) bool { return e == eParseDir || e == eManagedParseDir }
 
 var modes = []parser.Mode{0, parser.ParseComments, parser.AllErrors, parser.SkipObjectResolution, parser.ImportsOnly, parser.PackageClauseOnly, parser.DeclarationErrors | parser.AllErrors}
 
@@ -95,7 +98,7 @@ func Run(run *core.Run) {
 	base.sf = streamFault{srcKind: t.Draw(3), readFail: -1, writeAt: -1}
 	switch {
 	case mode <= 1:
-		if base.entry == eParseDir {
+		if isDir(base.entry) {
 			base.entry = eParseFile // keep the exhaustive sweep off the real file system
 		}
 		run.Describe("exhaustive truncation at every byte offset through %s", entryNames[base.entry])
@@ -107,7 +110,7 @@ func Run(run *core.Run) {
 			run.Count("fault-fired/truncate")
 		}
 	case mode == 8:
-		if base.entry == eParseDir {
+		if isDir(base.entry) {
 			base.entry = eParseFile
 		}
 		offs := faults.TokenOffsets(data)
@@ -221,7 +224,7 @@ func evaluate(run *core.Run, name string, data, stored []byte, c evalCfg) {
 	if managed(c.entry) {
 		prefix = "managed"
 	}
-	if c.entry == eParseDir {
+	if isDir(c.entry) {
 		prefix = "dir"
 	}
 	readErr := faults.NewSentinel("reader")
@@ -249,7 +252,7 @@ func evaluate(run *core.Run, name string, data, stored []byte, c evalCfg) {
 	if readerFired {
 		run.Count("fault-fired/reader-error")
 	}
-	if res.err == nil && len(res.files) == 0 && c.entry != eParseDir {
+	if res.err == nil && len(res.files) == 0 && !isDir(c.entry) {
 		run.Fail("c15/parse/nil-nil", prefix, "%s with %s returned neither a tree nor an error", entryNames[c.entry], c.label)
 		return
 	}
@@ -264,14 +267,14 @@ func evaluate(run *core.Run, name string, data, stored []byte, c evalCfg) {
 			run.Fail("c15/parse/no-error", prefix+"|reader", "%s: the reader failed (%s) but no error was returned", entryNames[c.entry], c.label)
 			return
 		}
-		if !errors.Is(res.err, readErr) && c.entry != eParseDir {
+		if !errors.Is(res.err, readErr) && !isDir(c.entry) {
 			run.Fail("c15/parse/reader-error-lost", prefix, "%s: the reader's error is not what came back: %v", entryNames[c.entry], res.err)
 			return
 		}
 		if len(res.files) > 0 {
 			run.Count("tree-despite-reader-error")
 		}
-	} else if c.entry != eParseDir && c.entry != eReuse {
+	} else if !isDir(c.entry) && c.entry != eReuse {
 		// errors are reported through the error result: go/parser calls these bytes erroneous iff dst does
 		if parserErr != nil && res.err == nil {
 			run.Fail("c15/parse/no-error", prefix+"|syntax", "%s with %s: go/parser reports %v but the entry point returned no error\ninput: %q", entryNames[c.entry], c.label, parserErr, clip(data))
@@ -282,7 +285,7 @@ func evaluate(run *core.Run, name string, data, stored []byte, c evalCfg) {
 			return
 		}
 	}
-	if len(data) == 0 && res.err == nil && c.entry != eParseDir {
+	if len(data) == 0 && res.err == nil && !isDir(c.entry) {
 		run.Fail("c15/parse/no-error", prefix+"|empty", "empty input produced no error")
 		return
 	}
@@ -383,7 +386,7 @@ func parseVia(c evalCfg, src interface{}, data []byte) parseResult {
 			err = perr
 		}
 		return one(f, err, fset)
-	case eParseDir:
+	case eParseDir, eManagedParseDir:
 		dir, err := ioutil.TempDir("", "dstsim-c15-")
 		if err != nil {
 			panic("harness: " + err.Error())
@@ -393,7 +396,12 @@ func parseVia(c evalCfg, src interface{}, data []byte) parseResult {
 			panic("harness: " + err.Error())
 		}
 		ioutil.WriteFile(filepath.Join(dir, "good.go"), []byte(goodFile), 0644)
-		pkgs, err := decorator.ParseDir(fset, dir, nil, c.mode)
+		var pkgs map[string]*dst.Package
+		if c.entry == eManagedParseDir {
+			pkgs, err = decorator.NewDecoratorWithImports(fset, LocalPath, goast.WithResolver(guess.WithMap(gen.Truth()))).ParseDir(dir, nil, c.mode)
+		} else {
+			pkgs, err = decorator.ParseDir(fset, dir, nil, c.mode)
+		}
 		r := parseResult{err: err, fset: fset}
 		var names []string
 		for n := range pkgs {
